@@ -24,6 +24,7 @@ impl ResolveError {
             | ResolveError::UnboundVar(var) => {
                 let (file_path, range) = var.info.to_ariadne_span();
                 Report::build(ReportKind::Error, (file_path.clone(), range.clone()))
+                    .with_config(crate::textual::report_config())
                     .with_message("Unbound variable")
                     .with_label(
                         Label::new((file_path, range))
@@ -36,6 +37,7 @@ impl ResolveError {
                 let (file_path2, range2) = var2.info.to_ariadne_span();
                 let primary_span = (file_path1.clone(), range1.clone());
                 let mut report = Report::build(ReportKind::Error, primary_span)
+                    .with_config(crate::textual::report_config())
                     .with_message("Duplicate definition")
                     .with_label(
                         Label::new((file_path1.clone(), range1))
@@ -52,6 +54,7 @@ impl ResolveError {
             | ResolveError::UnenclosedThat(span) => {
                 let (file_path, range) = span.to_ariadne_span();
                 Report::build(ReportKind::Error, (file_path.clone(), range.clone()))
+                    .with_config(crate::textual::report_config())
                     .with_message("Mobile binding without a block")
                     .with_label(
                         Label::new((file_path, range))
@@ -62,6 +65,7 @@ impl ResolveError {
             | ResolveError::RecursiveParameter(span) => {
                 let (file_path, range) = span.to_ariadne_span();
                 Report::build(ReportKind::Error, (file_path.clone(), range.clone()))
+                    .with_config(crate::textual::report_config())
                     .with_message("Recursive parameter component")
                     .with_label(
                         Label::new((file_path, range))
